@@ -6,7 +6,7 @@ CONSTANTS
   Errs = {"e1", "e2"}
   Invs = {"i1"}
   Conns = {"c1", "c2"}
-  OmitChoices = {0, 2}
+  OmitChoices = {0}
   InitStamps = {0}
   NoDefault = {"p1"}
   InitScopeSets = {{"all"}}
@@ -16,7 +16,7 @@ CONSTANTS
   MaxNow = 4
   Depth = 4
   FullParams = {"p1"}
-  LiteParams = {"p2"}
+  LiteParams = {}
   GenConns = {}
   GenDefaults = {"a"}
   GenLiteOmit = {0}
